@@ -53,6 +53,20 @@ Theorem C09_merges_only_neighbours : forall n m bs,
 Proof. exact loop_step_adjacent. Qed.
 Print Assumptions C09_merges_only_neighbours.
 
+(* end to end for an ordinal feature: the fitted values_orders entry is exactly the loop's final
+   buckets (leaders in ranking order, each group a permutation of its bucket's members, str_nan
+   appended iff the column has missing values) — with C09_ordinal_buckets_frequent this gives the
+   frequency bound and the contiguity of the FITTED groups *)
+Theorem C09_ordinal_fit_is_the_loop : forall mf nan_cnt order d g,
+  ordinal_fit mf nan_cnt order d = Ok (Some g) -> NoDup order -> ~ In str_nan order ->
+  exists bs,
+    find_common_modalities (nan_cnt + count_rows d) (min_freq_f mf) (map (init_bucket d) order) = Ok bs
+    /\ keys g = map b_lead bs ++ (if 0 <? nan_cnt then [str_nan] else [])
+    /\ map fst (non_missing_groups g) = map b_lead bs
+    /\ Forall2 (fun kv b => Permutation (snd kv) (b_mem b)) (non_missing_groups g) bs.
+Proof. exact ordinal_fit_groups. Qed.
+Print Assumptions C09_ordinal_fit_is_the_loop.
+
 (* fuel = number of buckets suffices; more fuel changes nothing *)
 Theorem C09_merging_terminates : forall n m bs,
   (exists bs', find_common_modalities n m bs = Ok bs')
